@@ -282,16 +282,94 @@ pub fn run(ctx: &Ctx) -> Outcome {
         }
     }
 
+    // long documents: the same small containers placed behind a string of every length up to a
+    // bound (so that every value starts at every byte offset across the 255/256/… boundaries), in
+    // three layouts; and nesting ladders up to the decoder's documented limit of 256 levels
+    let inner: Vec<V> = {
+        let i1 = V::Int(1);
+        let e_l = V::List(vec![]);
+        let e_d = V::Dict(vec![]);
+        vec![
+            i1.clone(),
+            V::Str(b"e:d".to_vec()),
+            e_l.clone(),
+            e_d.clone(),
+            V::List(vec![i1.clone()]),
+            V::List(vec![e_l.clone()]),
+            V::List(vec![V::Dict(vec![(b"k".to_vec(), e_l.clone())])]),
+            V::Dict(vec![(b"k".to_vec(), i1.clone())]),
+            V::Dict(vec![(b"k".to_vec(), e_l.clone())]),
+            V::Dict(vec![(b"k".to_vec(), V::List(vec![i1.clone()]))]),
+            V::Dict(vec![(b"k".to_vec(), V::Dict(vec![(b"x".to_vec(), i1.clone())]))]),
+            V::Dict(vec![(b"a".to_vec(), e_d.clone()), (b"b".to_vec(), V::List(vec![V::Dict(vec![(b"c".to_vec(), e_l.clone())])]))]),
+        ]
+    };
+    let mut pads: Vec<usize> = (0..=ctx.tier.pick(600usize, 5000usize)).collect();
+    for k in 10..=ctx.tier.pick(14u32, 17u32) {
+        for d in -4i64..=4 {
+            pads.push(((1i64 << k) + d) as usize);
+        }
+    }
+    pads.sort();
+    pads.dedup();
+    let long_res = core::par_map(&pads, |_| (), |_, _, pad| {
+        let mut n = 0u64;
+        let mut bad = vec![];
+        let filler = V::Str(vec![b'x'; *pad]);
+        for v in &inner {
+            let layouts = [
+                V::List(vec![filler.clone(), v.clone()]),
+                V::Dict(vec![(b"a".to_vec(), filler.clone()), (b"b".to_vec(), v.clone())]),
+                V::List(vec![filler.clone(), V::List(vec![v.clone(), v.clone()])]),
+            ];
+            for l in layouts {
+                n += 1;
+                if let Some((class, summary)) = check_value(&l) {
+                    bad.push((class, format!("(filler string of {} bytes in front) {}", pad, &summary[..summary.len().min(300)]), refb::enc(&l)));
+                }
+            }
+        }
+        (n, bad)
+    });
+    let mut long_docs = 0u64;
+    for (n, bad) in long_res {
+        long_docs += n;
+        for (class, summary, doc) in bad.into_iter().take(3) {
+            ctx.violation(class, summary, json!({"hex": core::hex(&doc)}));
+        }
+    }
+    let mut ladder = 0u64;
+    for depth in 1..=256usize {
+        for kind in 0..3 {
+            let mut v = V::Int(7);
+            for d in 0..depth {
+                v = match (kind, d % 2) {
+                    (0, _) | (2, 0) => V::List(vec![v]),
+                    _ => V::Dict(vec![(b"k".to_vec(), v)]),
+                };
+            }
+            ladder += 1;
+            if let Some((class, summary)) = check_value(&v) {
+                ctx.violation(class, format!("(nesting depth {}, kind {}) {}", depth, ["lists", "dictionaries", "alternating"][kind], &summary[..summary.len().min(200)]), json!({"hex": core::hex(&refb::enc(&v))}));
+            }
+        }
+    }
+    evaluations += long_docs + ladder;
+    containers += long_docs + ladder;
+
     let mut o = Outcome::new("exploration");
     o.set("evaluations", json!(evaluations));
     o.set("distinct_nontrivial", json!(containers));
-    o.set("rule", json!("every value of three index-addressable families is generated exactly once (mixed-radix index -> value): lists with repetition and dictionaries with distinct keys of at most `width` children over (depth1) 17 leaves, (depth2) 3 reduced leaves + all depth-1 containers over them, (depth3) those + width-1 depth-2 containers. Non-trivial = a container (all indices give distinct values); the 17 bare leaves are counted in evaluations only."));
+    o.set("long_documents", json!(long_docs));
+    o.set("filler_lengths", json!(pads.len()));
+    o.set("nesting_ladder_values", json!(ladder));
+    o.set("rule", json!("every value of three index-addressable families is generated exactly once (mixed-radix index -> value): lists with repetition and dictionaries with distinct keys of at most `width` children over (depth1) 17 leaves, (depth2) 3 reduced leaves + all depth-1 containers over them, (depth3) those + width-1 depth-2 containers. Non-trivial = a container (all indices give distinct values); the 17 bare leaves are counted in evaluations only. Plus long documents: 12 small values (scalars, empty and nested containers) behind a filler string of every length 0..=600 (thorough 0..=5000) and 2^k-4..=2^k+4 for k = 10..=14 (17), in three layouts (list, dictionary, list of list); plus nesting ladders of depth 1..=256 (lists, dictionaries, alternating) — 256 is the decoder's documented nesting limit."));
     o.set("families", Value::Array(per_family));
     o.set("samples", Value::Array(samples));
     o.set("exhaustive", json!(exhaustive));
     o.set("width", json!(width));
     o.assume("reference canonical encoder / parser in harness/src/refb.rs written from BEP3");
-    o.assume("nothing is claimed for values outside the stated leaf alphabet, deeper than 3 or wider than the stated width");
+    o.assume("nothing is claimed for values outside the stated leaf alphabet, wider than the stated width, or deeper than 3 other than the single-child ladders; values nested deeper than 256 are refused by the decoder on purpose (fix bd6a656, stack safety) and are outside the round-trip claim");
     o
 }
 
